@@ -77,7 +77,7 @@ func DeadQOvertake(procs int, slow0, slow1 int) hx.Sx {
 		return hx.L(hx.I(0), hx.I(1), hx.I(off), hx.S(`{"stream":"a","ops":"","m":""}`))
 	}
 	cfg := hx.L(hx.I(procs), hx.I(0), hx.I(24), hx.I(40), hx.I(0), hx.I(2), hx.I(3), hx.I(1), hx.I(10), hx.I(0), hx.I(1), hx.I(0))
-	ops := []hx.Sx{ev(10), hx.L(hx.I(1), hx.I(5)), ev(20), hx.L(hx.I(1), hx.I(5)), ev(30), hx.L(hx.I(1), hx.I(slow0 + 40)), ev(40)}
+	ops := []hx.Sx{ev(10), hx.L(hx.I(1), hx.I(5)), ev(20), hx.L(hx.I(1), hx.I(5)), ev(30), hx.L(hx.I(1), hx.I(slow0+40)), ev(40)}
 	plan := hx.L(hx.L(hx.I(slow0), hx.I(0)), hx.L(hx.I(slow1), hx.I(0)), hx.L(hx.I(0), hx.I(2)), hx.L(hx.I(0), hx.I(0)))
 	return hx.L(cfg, hx.L(hx.L(ops...)), plan)
 }
